@@ -303,11 +303,16 @@ func c02Units(thorough bool) []*explore.Unit {
 		{"multi3-2regions", []callSpec{{Kind: "get", Key: "a1"}, {Kind: "get", Key: "z2"}, {Kind: "get", Key: "a0"}}, rigCfg{QueueSize: 3}},
 		{"multi2+direct", []callSpec{{Kind: "get", Key: "a2"}, {Kind: "put", Key: "a1"}, {Kind: "get", Key: "z1", SkipBatch: true}}, rigCfg{QueueSize: 2}},
 		{"multi-timer", []callSpec{{Kind: "get", Key: "a1"}, {Kind: "get", Key: "z2"}}, rigCfg{QueueSize: 4, Flush: 5 * time.Millisecond}},
+		// several cell-carrying results of ONE region (equal and different cell counts): only here does a
+		// permuted result order move one caller's cells in the trailing cellblock (seeded change C02d)
+		{"multi3-1region-cells", []callSpec{{Kind: "get", Key: "a1"}, {Kind: "get", Key: "b1"}, {Kind: "get", Key: "c2"}}, rigCfg{QueueSize: 3}},
+		{"multi4-2regions-cells", []callSpec{{Kind: "get", Key: "a2"}, {Kind: "get", Key: "z1"}, {Kind: "get", Key: "b1"}, {Kind: "get", Key: "y2"}}, rigCfg{QueueSize: 4}},
 	}
 	snappy := compression.New("snappy")
 	mixes = append(mixes,
 		mix{"2direct-snappy", []callSpec{{Kind: "get", Key: "a1", SkipBatch: true}, {Kind: "get", Key: "z2", SkipBatch: true}}, rigCfg{QueueSize: 1, Codec: snappy}},
-		mix{"multi2+direct-snappy", []callSpec{{Kind: "get", Key: "a2"}, {Kind: "put", Key: "a1"}, {Kind: "get", Key: "z1", SkipBatch: true}}, rigCfg{QueueSize: 2, Codec: snappy}})
+		mix{"multi2+direct-snappy", []callSpec{{Kind: "get", Key: "a2"}, {Kind: "put", Key: "a1"}, {Kind: "get", Key: "z1", SkipBatch: true}}, rigCfg{QueueSize: 2, Codec: snappy}},
+		mix{"multi3-1region-cells-snappy", []callSpec{{Kind: "get", Key: "a1"}, {Kind: "get", Key: "b2"}, {Kind: "get", Key: "c1"}}, rigCfg{QueueSize: 3, Codec: snappy}})
 	if thorough {
 		mixes = append(mixes,
 			mix{"3direct", []callSpec{{Kind: "get", Key: "a1", SkipBatch: true}, {Kind: "get", Key: "z2", SkipBatch: true}, {Kind: "put", Key: "a2", SkipBatch: true}}, rigCfg{QueueSize: 1}},
@@ -368,7 +373,7 @@ func init() {
 	register(&Prop{
 		ID: "C02", Level: "model_checking",
 		Technique: "stateless model checking of the real region client: all schedules up to a deviation bound x all response permutations x all result permutations inside multi-responses x exception placements, with key-derived payloads as oracle",
-		Rule: "units = call mix (2-4 callers; direct, one multi over two regions, multi + direct, timer-flushed multi) x server policy {hold everything then answer in every permutation, answer on arrival} x exception placement {none, each action, a whole region}; inside every multi-response the result order of each region is permuted (all permutations, cost 0) and the trailing cellblock follows that order with 0/1/2 cells per result; schedules with <=1 (thorough <=2) deviations. Oracle: the caller of key k gets exactly the cells / exception generated for k. Non-trivial = at least one non-default choice (schedule or permutation).",
+		Rule: "units = call mix (2-4 callers; direct, one multi over two regions, a multi with three cell-carrying gets of one region, a multi with two cell-carrying gets in each of two regions, multi + direct, timer-flushed multi) x server policy {hold everything then answer in every permutation, answer on arrival} x exception placement {none, each action, a whole region}; inside every multi-response the result order of each region is permuted (all permutations, cost 0) and the trailing cellblock follows that order with 0/1/2 cells per result; schedules with <=1 (thorough <=2) deviations. Oracle: the caller of key k gets exactly the cells / exception generated for k. Non-trivial = at least one non-default choice (schedule or permutation).",
 		Assumptions: []string{"server keeps RegionActionResult order equal to the request's RegionAction order (HBase does)", "scheduling points as in C03"},
 		Quick:       100 * time.Second, Thorough: 15 * time.Minute,
 		Units: c02Units,
